@@ -417,6 +417,9 @@ func v(label string, g interface{}) Val { return Val{Label: label, Go: g} }
 
 func pInt(i int) *int              { return &i }
 func pInt64(i int64) *int64        { return &i }
+func pBool(b bool) *bool           { return &b }
+func pUint(u uint) *uint           { return &u }
+func pFloat(f float64) *float64    { return &f }
 func pStr(s string) *string        { return &s }
 func pTime(t time.Time) *time.Time { return &t }
 func pMoney(m Money) *Money        { return &m }
@@ -519,12 +522,18 @@ func buildSpecs() []*Spec {
 	// --- pointers ----------------------------------------------------------
 	add(plain("ptr_int", (*int)(nil), v("nil", (*int)(nil)), v("&0", pInt(0)), v("&-5", pInt(-5)), v("&max", pInt(math.MaxInt64))))
 	add(plain("ptr_string", (*string)(nil), v("nil", (*string)(nil)), v("&empty", pStr("")), v("&quote", pStr("x'yé"))))
-	add(plain("ptr_time", (*time.Time)(nil), v("nil", (*time.Time)(nil)), v("&utc", pTime(T1)), v("&zone", pTime(TZone))))
+	add(plain("ptr_time", (*time.Time)(nil), v("nil", (*time.Time)(nil)), v("&zero", pTime(time.Time{})), v("&utc", pTime(T1)), v("&zone", pTime(TZone))))
+
+	add(plain("ptr_bool", (*bool)(nil), v("nil", (*bool)(nil)), v("&false", pBool(false)), v("&true", pBool(true))))
+	add(with(plain("ptr_uint", (*uint)(nil), v("nil", (*uint)(nil)), v("&0", pUint(0)), v("&9", pUint(9))), func(s *Spec) { s.Unsigned = true }))
+	add(plain("ptr_float64", (*float64)(nil), v("nil", (*float64)(nil)), v("&0", pFloat(0)), v("&-2.5", pFloat(-2.5))))
 
 	// --- sql.Null* ---------------------------------------------------------
+	add(plain("null_bool", sql.NullBool{}, v("null", sql.NullBool{}), v("valid-false", sql.NullBool{Valid: true}), v("true", sql.NullBool{Bool: true, Valid: true})))
+	add(plain("null_float64", sql.NullFloat64{}, v("null", sql.NullFloat64{}), v("valid-0", sql.NullFloat64{Valid: true}), v("1.5", sql.NullFloat64{Float64: 1.5, Valid: true})))
 	add(plain("null_int64", sql.NullInt64{}, v("null", sql.NullInt64{}), v("0", sql.NullInt64{Valid: true}), v("-9", sql.NullInt64{Int64: -9, Valid: true}), v("max", sql.NullInt64{Int64: math.MaxInt64, Valid: true})))
 	add(plain("null_string", sql.NullString{}, v("null", sql.NullString{}), v("empty", sql.NullString{Valid: true}), v("quote", sql.NullString{String: "q'é", Valid: true})))
-	add(plain("null_time", sql.NullTime{}, v("null", sql.NullTime{}), v("utc", sql.NullTime{Time: T1, Valid: true}), v("zone", sql.NullTime{Time: TZone, Valid: true})))
+	add(plain("null_time", sql.NullTime{}, v("null", sql.NullTime{}), v("valid-zero", sql.NullTime{Valid: true}), v("utc", sql.NullTime{Time: T1, Valid: true}), v("zone", sql.NullTime{Time: TZone, Valid: true})))
 
 	// --- custom scanner/valuer ---------------------------------------------
 	add(plain("money", Money{}, v("zero", Money{}), v("usd", Money{Units: 12345, Cur: "USD"}), v("neg", Money{Units: -1, Cur: "x:y'z"})))
@@ -561,7 +570,7 @@ func buildSpecs() []*Spec {
 	}
 	add(ux("unixtime_int64", int64(0), v("0", int64(0)), v("1.6e9", int64(1600000000)), v("-1", int64(-1))))
 	add(with(ux("unixtime_uint", uint(0), v("0", uint(0)), v("1.6e9", uint(1600000000))), func(s *Spec) { s.Unsigned = true }))
-	add(ux("unixtime_ptr_int64", (*int64)(nil), v("nil", (*int64)(nil)), v("&1.6e9", pInt64(1600000000)), v("&-1", pInt64(-1))))
+	add(ux("unixtime_ptr_int64", (*int64)(nil), v("nil", (*int64)(nil)), v("&0", pInt64(0)), v("&1.6e9", pInt64(1600000000)), v("&-1", pInt64(-1))))
 
 	// customized serializer types (the value IS the serializer instance);
 	// the empty secret is the NULL row
